@@ -153,6 +153,9 @@ func (interp *Interpreter) importSrc(rPath, importPath string, skipTest bool) (n
 	interp.srcPkg[importPath] = gs.sym
 	interp.pkgNames[importPath] = pkgName
 
+	// Init interpreter execution memory frame, as in Execute: a previously
+	// cancelled evaluation must not prevent the package code from running.
+	interp.frame.setrunid(interp.runid())
 	interp.frame.mutex.Lock()
 	interp.resizeFrame()
 	interp.frame.mutex.Unlock()
